@@ -429,6 +429,81 @@ template<typename T> static std::string o_wr(const std::vector<std::string>& w) 
   return "ok";
 }
 
+// o_extent row nu nv nw seed x0 y0 z0 x1 y1 z1 (box corners in 1/1000 of the cell; 9999 for the corners = ASU brick)
+// Ccp4::set_extent on a symmetric full-cell map: the stored box is the requested sub-array (periodic), and the file
+// written from it expands back under setup(Full) to the map it was cut from when the box covers the ASU.
+static std::string o_extent(const std::vector<std::string>& w) {
+  int row = (int) to_ll(w.at(0));
+  int n[3] = {(int) to_ll(w.at(1)), (int) to_ll(w.at(2)), (int) to_ll(w.at(3))};
+  ll seed = to_ll(w.at(4));
+  const SpaceGroup* sg = row_sg(row);
+  if (find_spacegroup_by_number(sg->ccp4) != sg) return "skip";
+  try { check_grid_factors(sg, {{n[0], n[1], n[2]}}); } catch (std::exception&) { return "skip"; }
+  Orbits orb = make_orbits(sg, n[0], n[1], n[2]);
+  if (!orb.ok) return "grid accepted by check_grid_factors is not mapped onto itself by an operation";
+  std::vector<int> G = invariant_values(orb, seed);
+  Ccp4<float> m;
+  m.grid.spacegroup = sg;
+  m.grid.unit_cell.set(20.5, 31.25, 42.125, 90, 90, 90);
+  m.grid.set_size_without_checking(n[0], n[1], n[2]);
+  m.grid.axis_order = AxisOrder::XYZ;
+  for (size_t k = 0; k < G.size(); ++k) m.grid.data[k] = (float) G[k];
+  m.update_ccp4_header(2, true);
+  Box<Fractional> box;
+  bool asu_box = to_ll(w.at(5)) == 9999;
+  if (asu_box) {
+    box = find_asu_brick(sg).get_extent();
+  } else {
+    box.minimum = Fractional(to_ll(w.at(5)) / 1000.0, to_ll(w.at(6)) / 1000.0, to_ll(w.at(7)) / 1000.0);
+    box.maximum = Fractional(to_ll(w.at(8)) / 1000.0, to_ll(w.at(9)) / 1000.0, to_ll(w.at(10)) / 1000.0);
+  }
+  double lo[3] = {box.minimum.x, box.minimum.y, box.minimum.z}, hi[3] = {box.maximum.x, box.maximum.y, box.maximum.z};
+  int s[3], e[3];
+  for (int i = 0; i < 3; ++i) {
+    s[i] = (int) std::ceil(lo[i] * n[i]);
+    e[i] = (int) std::floor(hi[i] * n[i]) - s[i] + 1;
+    if (e[i] <= 0) return "skip";   // the box holds no grid plane along this axis: outside the property
+  }
+  m.set_extent(box);
+  if (m.grid.nu != e[0] || m.grid.nv != e[1] || m.grid.nw != e[2]) return "set_extent: wrong dimensions";
+  if (m.header_i32(1) != e[0] || m.header_i32(2) != e[1] || m.header_i32(3) != e[2]) return "set_extent: NX,NY,NZ not updated";
+  if (m.header_i32(5) != s[0] || m.header_i32(6) != s[1] || m.header_i32(7) != s[2]) return "set_extent: wrong start words";
+  if (m.header_i32(8) != n[0] || m.header_i32(9) != n[1] || m.header_i32(10) != n[2]) return "set_extent: sampling changed";
+  if (m.grid.data.size() != (size_t) e[0] * e[1] * e[2]) return "set_extent: wrong data size";
+  auto wrapmod = [](int a, int mm) { return ((a % mm) + mm) % mm; };
+  // every grid point inside the box is kept, with its value; points inside: lo <= x/n <= hi
+  for (int z = 0; z < e[2]; ++z) for (int y = 0; y < e[1]; ++y) for (int x = 0; x < e[0]; ++x) {
+    int X = wrapmod(s[0] + x, n[0]), Y = wrapmod(s[1] + y, n[1]), Z = wrapmod(s[2] + z, n[2]);
+    if (m.grid.data[((size_t) z * e[1] + y) * e[0] + x] != (float) G[((size_t) Z * n[1] + Y) * n[0] + X])
+      return "set_extent: wrong value at " + std::to_string(x) + "," + std::to_string(y) + "," + std::to_string(z);
+  }
+  for (int i = 0; i < 3; ++i) {
+    if (!(s[i] >= lo[i] * n[i] - 1e-9 && s[i] - 1 < lo[i] * n[i])) return "set_extent: first plane is not the first one inside the box";
+    if (!(s[i] + e[i] - 1 <= hi[i] * n[i] + 1e-9 && s[i] + e[i] > hi[i] * n[i])) return "set_extent: last plane is not the last one inside the box";
+  }
+  // write, read back, expand
+  std::string path = tmp_path(".ccp4");
+  m.write_ccp4_map(path);
+  Ccp4<float> r;
+  r.read_ccp4_file(path);
+  std::remove(path.c_str());
+  if (r.grid.data != m.grid.data) return "box map: data changed by write/read";
+  bool covers = true;
+  {
+    Grid<int8_t> meta; meta.spacegroup = sg; meta.set_size_without_checking(n[0], n[1], n[2]);
+    std::array<int, 3> end = find_asu_brick(sg).uvw_end(meta);
+    for (int i = 0; i < 3; ++i)
+      if (!(e[i] >= n[i] || (s[i] <= 0 && s[i] + e[i] >= end[i]))) covers = false;
+  }
+  if (asu_box && !covers) return "extent of the ASU brick does not cover the brick's grid points";
+  r.setup(NAN, MapSetup::Full);
+  if (r.grid.nu != n[0] || r.grid.nv != n[1] || r.grid.nw != n[2]) return "expanded box map: wrong dimensions";
+  if (covers)
+    for (size_t k = 0; k < G.size(); ++k)
+      if (r.grid.data[k] != (float) G[k]) return "expanded box map differs from the original at point " + std::to_string(k);
+  return "ok";
+}
+
 // o_asu row nu nv nw : the mask has exactly one 0 per orbit, everything else 1
 static std::string o_asu(const std::vector<std::string>& w) {
   int row = (int) to_ll(w.at(0));
@@ -763,6 +838,7 @@ static std::string handle(const std::string& cmd, const std::string& args) {
     return s;
   }
   if (cmd == "setup") return w.at(0) == "f" ? do_setup<float>(w) : do_setup<int8_t>(w);
+  if (cmd == "o_extent") return o_extent(w);
   if (cmd == "o_perm") return w.at(0) == "f" ? o_perm<float>(w) : o_perm<int8_t>(w);
   if (cmd == "o_wr") return w.at(0) == "f" ? o_wr<float>(w) : o_wr<int8_t>(w);
   if (cmd == "o_asu") return o_asu(w);
